@@ -174,11 +174,15 @@ func convertSchema(s string, t *VirtualTable) error {
 		return fmt.Errorf("sqlite vtable primary key cannot be composite")
 	}
 	columnMap := map[string]struct{}{}
+	// SQLite does not tell column names apart by case: what it would refuse when
+	// the table is declared (after the storage has been opened) is refused here
+	folded := map[string]struct{}{}
 	for i := range schema.Columns {
 		name := schema.Columns[i].Name
-		if _, ok := columnMap[name]; ok {
+		if _, ok := folded[strings.ToLower(name)]; ok {
 			return fmt.Errorf("duplicate column: %s", name)
 		}
+		folded[strings.ToLower(name)] = struct{}{}
 		columnMap[schema.Columns[i].Name] = struct{}{}
 	}
 	t.usesRowID = true
